@@ -240,6 +240,19 @@ def run_redirects(ctx, n, kinds, start, via):
     return out
 
 
+def placeholder_texts():
+    from wikitextprocessor.common import MAGIC_FIRST
+    forms = ["[[a|%s]]", "{{{a|%s}}}", "{{a|%s}}", "{{#if:1|%s}}", "[http://x.y %s]", "<nowiki>%s</nowiki>", "{{a|k=%s}}", "x%sy"]
+    out = []
+    for f in forms:
+        for k in (0, 1, 2):
+            out.append(f % chr(MAGIC_FIRST + k))
+    for f, g in itertools.product(forms[:4], repeat=2):
+        out.append(f % chr(MAGIC_FIRST + 1) + " " + g % "b")
+        out.append(f % "b" + " " + g % chr(MAGIC_FIRST))
+    return out
+
+
 def digraphs(n):
     pairs = [(i, j) for i in range(n) for j in range(n)]
     for mask in range(1 << len(pairs)):
@@ -472,6 +485,30 @@ def work(payload, skip, report):
                               "number or in-band error string")
             if i % 20011 == 0:
                 acc.sample(case)
+    elif kind == "ph":
+        # page text that contains the package's own placeholder code points (private-use characters): each text runs in a
+        # chunk of its own, so a hang is one watchdog kill
+        _, text = payload
+        case = {"input": text}
+        acc.case()
+        if 0 in skip:
+            acc.violation("placeholder_input_returns", case, "no result within the watchdog (20 s)", "returns")
+        else:
+            report(0)
+            ctx.add_page("Template:a", 10, "A{{{1|}}}")
+            ctx.start_page("Tt")
+            try:
+                with time_limit(5.0):
+                    got = ctx.expand(text)
+                acc.distinct("cases", got[:50])
+                if not isinstance(got, str):
+                    acc.violation("returns_str", case, type(got).__name__, "str")
+            except Timeout:
+                acc.violation("placeholder_input_returns", case, "no result within 5 s", "returns")
+            except RecursionError:
+                acc.violation("placeholder_input_returns", case, "RecursionError", "returns a string")
+            except Exception as e:
+                acc.violation("placeholder_input_returns", case, type(e).__name__ + ": " + str(e)[:80], "returns a string")
     elif kind == "big":
         _, text = payload
         case = {"input": text if len(text) < 200 else text[:80] + "...(%d chars)" % len(text)}
@@ -557,6 +594,8 @@ def main(run):
         bigs.append("[[" + "a" * 1500 + "|" + "b" * 1500)
     for b in bigs:
         chunks.append(("big", b))
+    for t in placeholder_texts():
+        chunks.append(("ph", t))
     done = 0
     for cid, acc, hung in run_chunks(work, chunks, nproc=run.nproc, case_timeout=20, mem_limit=4 << 30):
         run.acc.merge(acc)
@@ -573,9 +612,9 @@ def main(run):
                 "every start page x call position (direct, #if branch, another template's body); (b) every one of %d parser functions "
                 "(network-backed #property/#statements and #invoke excluded) x every argument vector of length <= %d over 12 atoms "
                 "(4 page titles for length <= 1) in both call forms; (c) every #expr token string of length <= %d over %d symbols "
-                "(all operators and function words); (d) resource-exhaustion probes. Every case under a 20 s watchdog and a 4 GiB "
+                "(all operators and function words); (d) resource-exhaustion probes; (e) %d texts with the package's own placeholder code points inside every construct. Every case under a 20 s watchdog and a 4 GiB "
                 "address-space limit. distinct = distinct outputs / graph cases."
-                % (3 if q else 4, len(fns), 2 if q else 3, 3 if q else 4, len(EXPR_Q if q else EXPR)),
+                % (3 if q else 4, len(fns), 2 if q else 3, 3 if q else 4, len(EXPR_Q if q else EXPR), len(placeholder_texts())),
         "exhaustive": True,
     }
     assumptions = [
